@@ -8,6 +8,7 @@ class Program:
     def __init__(self, crates):
         self.crates = crates
         self.bodies = {}
+        self.promoted = {}  # `<fn path>::promoted[i]` -> body of the promoted constant
         self.statics = {}
         self.adts = {}
         self.impls = []
@@ -19,6 +20,10 @@ class Program:
                 b["path"] = p
                 b["crate"] = cname
                 self.bodies[p] = b
+            for p, b in c.get("promoted", {}).items():
+                b["path"] = p
+                b["crate"] = cname
+                self.promoted[p] = b
             for p, s in c["statics"].items():
                 s["crate"] = cname
                 self.statics[p] = s
@@ -325,7 +330,7 @@ class Program:
     def cfg(self, path):
         if path in self._cfg:
             return self._cfg[path]
-        g = CFG(self.bodies[path])
+        g = CFG(self.bodies[path] if path in self.bodies else self.promoted[path])
         self._cfg[path] = g
         return g
 
@@ -563,7 +568,7 @@ class Slicer:
     def __init__(self, prog, path):
         self.prog = prog
         self.path = path
-        self.body = prog.bodies[path]
+        self.body = prog.bodies[path] if path in prog.bodies else prog.promoted[path]
         self.argc = self.body["argc"]
         self.defs = defaultdict(list)  # local -> list of (kind, payload, block)
         self.mutref = defaultdict(set)  # local holding &mut -> base locals it may point to
@@ -812,7 +817,7 @@ class Expr:
         self.path = path
         self.opaque = re.compile(opaque) if opaque else None
         self.sl = prog.slicer(path)
-        self.body = prog.bodies[path]
+        self.body = prog.bodies[path] if path in prog.bodies else prog.promoted[path]
         self.argc = self.body["argc"]
         self.max_depth = max_depth
 
@@ -831,7 +836,20 @@ class Expr:
                 return ("const", "int", c["int"])
             if "str" in c:
                 return ("const", "str", c["str"])
-            return ("const", "other", c.get("val"))
+            v = c.get("val")
+            if isinstance(v, str) and v in self.prog.promoted and depth < self.max_depth:
+                # a promoted constant: the value its body builds (`&Horizontal::LeftEdge` -> that aggregate)
+                memo = self.prog.__dict__.setdefault("_promoted_value", {})
+                if v not in memo:
+                    memo[v] = None
+                    try:
+                        r = Expr(self.prog, v).returns()
+                        memo[v] = r[0] if len(r) == 1 and not _mentions_param(r[0]) else None
+                    except Exception:
+                        memo[v] = None
+                if memo[v] is not None:
+                    return memo[v]
+            return ("const", "other", v)
         pl = op_place(op)
         if pl is None:
             return ("unknown", "operand")
@@ -969,6 +987,12 @@ class Expr:
         """expressions of the return value (one per definition of _0)"""
         e = self.local(0)
         return list(e[1]) if e[0] == "phi" else [e]
+
+
+def _mentions_param(e):
+    found = []
+    expr_walk(e, lambda z: found.append(1) if isinstance(z, tuple) and z and z[0] == "param" else None)
+    return bool(found)
 
 
 def _has_deep(e, _seen=None):
